@@ -45,21 +45,6 @@ impl Tree {
     }
 }
 
-macro_rules! tuple_of {
-    ($v:ident; $($n:literal => [$($i:tt),*]),* $(,)?) => {
-        match $v.len() {
-            $( $n => {
-                let mut it = $v.into_iter();
-                let t = ( $( { let _ = $i; it.next().unwrap() } ),* ,);
-                let mut dc = DynClause::new();
-                dc.push(t);
-                dc
-            } )*
-            n => panic!("HARNESS: no tuple impl of arity {n}"),
-        }
-    };
-}
-
 /// Build the clause for a tree node: children are wrapped in DynClause (a clause of unknown
 /// size), the node itself is a REAL tuple of the node's arity, so the tuple impl under test runs.
 pub fn build_tree(tree: &Tree, clauses: &[ClauseSpec], next: &mut usize) -> DynClause {
@@ -74,21 +59,7 @@ pub fn build_tree(tree: &Tree, clauses: &[ClauseSpec], next: &mut usize) -> DynC
         }
         Tree::Node(children) => {
             let v: Vec<DynClause> = children.iter().map(|c| build_tree(c, clauses, next)).collect();
-            match v.len() {
-                0 => {
-                    let mut dc = DynClause::new();
-                    dc.push(());
-                    dc
-                }
-                1 => v.into_iter().next().unwrap(),
-                _ => tuple_of!(v;
-                    2 => [0, 1], 3 => [0, 1, 2], 4 => [0, 1, 2, 3], 5 => [0, 1, 2, 3, 4], 6 => [0, 1, 2, 3, 4, 5],
-                    7 => [0, 1, 2, 3, 4, 5, 6], 8 => [0, 1, 2, 3, 4, 5, 6, 7], 9 => [0, 1, 2, 3, 4, 5, 6, 7, 8],
-                    10 => [0, 1, 2, 3, 4, 5, 6, 7, 8, 9], 11 => [0, 1, 2, 3, 4, 5, 6, 7, 8, 9, 10],
-                    12 => [0, 1, 2, 3, 4, 5, 6, 7, 8, 9, 10, 11], 13 => [0, 1, 2, 3, 4, 5, 6, 7, 8, 9, 10, 11, 12],
-                    14 => [0, 1, 2, 3, 4, 5, 6, 7, 8, 9, 10, 11, 12, 13], 15 => [0, 1, 2, 3, 4, 5, 6, 7, 8, 9, 10, 11, 12, 13, 14],
-                    16 => [0, 1, 2, 3, 4, 5, 6, 7, 8, 9, 10, 11, 12, 13, 14, 15]),
-            }
+            crate::build::real_tuple(v)
         }
     }
 }
@@ -102,6 +73,13 @@ pub struct TreeCase {
 /// Distinct ordered leaves: leaf i is `next_call` of method (i % 3) accepting only arg (i % 8),
 /// so the order in which the mock accepts calls reveals the flattening order.
 pub fn ordered_leaves(n: usize, swap: Option<usize>, partial: bool) -> Scenario {
+    ordered_leaves_with_zeros(n, swap, partial, 0)
+}
+
+/// As `ordered_leaves`; bit (i % 64) of `zeros` set = leaf i is quantified `n_times(0)`: it reserves no
+/// position in the sequence and is never called, the leaves around it keep their order.
+pub fn ordered_leaves_with_zeros(n: usize, swap: Option<usize>, partial: bool, zeros: u64) -> Scenario {
+    let zero = |i: usize| (zeros >> (i % 64)) & 1 == 1;
     let mut clauses = vec![];
     for i in 0..n {
         clauses.push(ClauseSpec::Single {
@@ -111,11 +89,12 @@ pub fn ordered_leaves(n: usize, swap: Option<usize>, partial: bool) -> Scenario 
                 id: i as u16,
                 mask: 1 << (i % 8),
                 matcher: MatcherKind::FuncDebug,
-                chain: vec![Seg { resp: Resp::Answers, quant: Quant::None }],
+                chain: vec![Seg { resp: Resp::Answers, quant: if zero(i) { Quant::NTimes(0) } else { Quant::None } }],
             },
         });
     }
-    let mut history: Vec<Call> = (0..n).map(|i| Call { method: (i % 3) as u8, arg: (i % 8) as u8, via: 0 }).collect();
+    let mut history: Vec<Call> =
+        (0..n).filter(|i| !zero(*i)).map(|i| Call { method: (i % 3) as u8, arg: (i % 8) as u8, via: 0 }).collect();
     if let Some(k) = swap {
         if k + 1 < history.len() {
             history.swap(k, k + 1);
@@ -229,10 +208,17 @@ pub fn tree_strategy(leaves: usize) -> BoxedStrategy<Tree> {
 }
 
 fn order_case() -> impl Strategy<Value = TreeCase> {
-    (1..=40usize, any::<bool>(), proptest::option::weighted(0.4, 0..40usize)).prop_flat_map(|(n, partial, swap)| {
-        let swap = swap.map(|k| k % n.max(1));
-        tree_strategy(n).prop_map(move |tree| TreeCase { scn: ordered_leaves(n, swap, partial), tree })
-    })
+    (
+        1..=40usize,
+        any::<bool>(),
+        proptest::option::weighted(0.4, 0..40usize),
+        // zero-count leaves: none, sparse, or arbitrary
+        prop_oneof![2 => Just(0u64), 1 => (any::<u64>(), any::<u64>()).prop_map(|(a, b)| a & b), 1 => any::<u64>()],
+    )
+        .prop_flat_map(|(n, partial, swap, zeros)| {
+            let swap = swap.map(|k| k % n.max(1));
+            tree_strategy(n).prop_map(move |tree| TreeCase { scn: ordered_leaves_with_zeros(n, swap, partial, zeros), tree })
+        })
 }
 
 pub fn offender_cfg() -> Cfg {
@@ -289,6 +275,10 @@ pub fn arity_sweep() -> Vec<TreeCase> {
             for k in 0..arity - 1 {
                 v.push(TreeCase { scn: ordered_leaves(arity, Some(k), partial), tree: Tree::Node(vec![Tree::Leaf; arity]) });
             }
+            // a zero-count leaf at every position (it reserves nothing; its neighbours keep their order)
+            for z in 0..arity {
+                v.push(TreeCase { scn: ordered_leaves_with_zeros(arity, None, partial, 1 << z), tree: Tree::Node(vec![Tree::Leaf; arity]) });
+            }
             // nested: (leaf, (arity leaves), leaf)
             v.push(TreeCase {
                 scn: ordered_leaves(arity + 2, None, partial),
@@ -299,7 +289,7 @@ pub fn arity_sweep() -> Vec<TreeCase> {
     v
 }
 
-pub const RULE: &str = "arity-sweep = every tuple arity 0, 2..16 as a flat tuple of distinct ordered leaf clauses (accepted only in declaration order) with the in-order history, every adjacent transposition of it, and the same tuple nested between two further leaves, strict and partial: enumerated exhaustively. trees = random tuple trees (arity 0, 2..16, depth <= 4, up to 40 leaves) over the same leaves, with and without a transposed call. offenders = generated consistent setups (C01-C04 style) with one offending clause (the opposite mode for an already mentioned method, or an empty stub) injected at a generated position of a random tree. compile-fail = builder chains about ordering/exactness that must not type-check (program-generation engine). Non-trivial = arity >= 6 or depth >= 2, or an offending clause; distinct = distinct case";
+pub const RULE: &str = "arity-sweep = every tuple arity 0, 2..16 as a flat tuple of distinct ordered leaf clauses (accepted only in declaration order) with the in-order history, every adjacent transposition of it, one n_times(0) leaf at every position, and the same tuple nested between two further leaves, strict and partial: enumerated exhaustively. trees = random tuple trees (arity 0, 2..16, depth <= 4, up to 40 leaves) over the same leaves, with and without a transposed call, with and without n_times(0) leaves. offenders = generated consistent setups (C01-C04 style) with one offending clause (the opposite mode for an already mentioned method, or an empty stub) injected at a generated position of a random tree. compile-fail = builder chains about ordering/exactness that must not type-check (program-generation engine). Non-trivial = arity >= 6 or depth >= 2, or an offending clause; distinct = distinct case";
 
 pub fn run(ctx: &Ctx) -> Verdict {
     let mut v = Verdict::new("exploration", RULE);
